@@ -34,6 +34,7 @@ Apply(S, act) ==
     [] act.a = "frag"           -> [EnvFeed(S, act.c, IF act.i < act.n THEN <<>> ELSE <<FromJson(act.m)>>) EXCEPT !.frag[act.c] = act.i < act.n]
     [] act.a = "peer_close"     -> EnvPeerClose(S, act.c)
     [] act.a = "peer_reset"     -> EnvPeerReset(S, act.c)
+    [] act.a = "send_error"     -> EnvSendError(S, act.c)
     [] act.a = "connect_result" -> EnvConnectResult(S, act.c, act.err)
     [] act.a = "tick"           -> EnvTick(S)
     [] act.a = "stop"           -> EnvStop(S, act.force, act.wait)
